@@ -24,6 +24,18 @@ from amaranth import *
 from ..harness import Harness
 from ..engine import Query
 
+# FINDINGS (fixes proposed as the series /verif/findings/C46_D1..D7.patch + .msg; subjects as in the .msg files)
+#   D1 "SuperSpeed IN endpoint provides its packet parameters whenever a packet can start"
+#       ZLPs and <= 4-byte packets latched with length/sequence/endpoint 0; caught by length, dp_endpoint, sequence,
+#       bytes_match_length.
+#   D2 "... advances its sequence number on every acknowledged packet, and only then"      caught by sequence, unsolicited.
+#   D3 "... names its endpoint in NRDY/ERDY requests"                                       caught by tp_endpoint.
+#   D4 "... holds the last word of a packet until the link accepts it"                      caught by bytes_match_length.
+#   D5 "... sends a short packet whose last word arrived in the ACK cycle"                  caught by in_gets_data.
+#   D6 "... answers an ACK that requests more data with NRDY when it has none"              caught by in_gets_nrdy.
+#   D7 "... waits for its own ERDY, and owes one ERDY per NRDY"                             caught by erdy_after_nrdy,
+#       in_gets_data.
+
 PROP = "C46"
 ENCODED = ["luna/gateware/usb/usb3/endpoints/stream.py: SuperSpeedStreamInEndpoint.elaborate (buffering, FSM, sequence "
            "numbers, NRDY/ERDY, retry, ZLP generation)",
